@@ -1,5 +1,6 @@
 #!/bin/bash
+here=$(cd "$(dirname "$0")/.." && pwd)
 for g in A C D B; do for i in 1 2 3; do
   p=/tmp/wt-R$g/_refactors/r$i/patch.diff
-  [ -f $p ] && { echo "##### R$g r$i"; bash /verif/tools/refactor_check.sh /tmp/wt-R$g $p; }
+  [ -f $p ] && { echo "##### R$g r$i"; bash $here/tools/refactor_check.sh /tmp/wt-R$g $p; }
 done; done
